@@ -1202,7 +1202,11 @@ func newOfficialRoaringIterator(data []byte) (*officialRoaringIterator, error) {
 	r.headers = data[headerOffset:offsetOffset]
 	// note: offsets are only actually used with the no-run headers.
 	if r.haveRuns {
-		// start out pointed at where the offsets would have been.
+		// start out pointed at where the offsets would have been; with at
+		// least officialNoOffsetThreshold containers they are really there.
+		if keys >= officialNoOffsetThreshold {
+			offsetOffset += 4 * int(keys)
+		}
 		r.currentDataOffset = uint32(offsetOffset)
 	} else {
 		r.offsets = data[offsetOffset : offsetOffset+int(r.keys*4)]
@@ -5101,6 +5105,10 @@ func popcountAndSlice(s, m []uint64) uint64 {
 const (
 	serialCookieNoRunContainer = 12346 // only arrays and bitmaps
 	serialCookie               = 12347 // runs, arrays, and bitmaps
+
+	// officialNoOffsetThreshold: streams with the run cookie have an offset
+	// header only if they hold at least this many containers.
+	officialNoOffsetThreshold = 4
 )
 
 func readOfficialHeader(buf []byte) (size uint32, containerTyper func(index uint, card int) byte, header, pos int, haveRuns bool, err error) {
@@ -5126,7 +5134,7 @@ func readOfficialHeader(buf []byte) (size uint32, containerTyper func(index uint
 		pos += 4
 	} else if cookie&0x0000FFFF == serialCookie {
 		haveRuns = true
-		size = uint32(uint16(cookie>>16) + 1) // number of containers
+		size = uint32(uint16(cookie>>16)) + 1 // number of containers (up to 1<<16: add after widening)
 
 		// create is-run-container bitmap
 		isRunBitmapSize := (int(size) + 7) / 8
@@ -5241,6 +5249,12 @@ func readOffsets(b *Bitmap, data []byte, pos int, keyN uint32) error {
 }
 
 func readWithRuns(b *Bitmap, data []byte, pos int, keyN uint32) error {
+	// With the run cookie, the format carries an offset header only when
+	// there are at least officialNoOffsetThreshold containers; the data are
+	// stored sequentially, so we just skip it.
+	if keyN >= officialNoOffsetThreshold {
+		pos += 4 * int(keyN)
+	}
 	if len(data) < pos+runCountHeaderSize {
 		return fmt.Errorf("offset incomplete: len=%d", len(data))
 	}
